@@ -27,10 +27,11 @@ def outAbs : Out → SOut
 
 /-! ## 1. Refinement: every operation of the code-shaped queue is the FIFO operation -/
 
-/-- Representation invariant of the whole object (ring part and ping slot). -/
-def FullInv (q : Q) : Prop := Inv q ∧ PingOk q
+/-- Representation invariant of the whole object (ring part and ping FIFO). -/
+def FullInv (q : Q) : Prop := Inv q ∧ PingsOk q
 
-theorem fullInv_init : FullInv init := ⟨inv_init, by unfold PingOk init; rw [newAckqueue_default]; decide⟩
+theorem fullInv_init : FullInv init :=
+  ⟨inv_init, by unfold PingsOk init; rw [newAckqueue_default]; intro a ha; cases ha⟩
 
 /-- One step: invariant preserved, output equal, abstraction commutes. -/
 theorem C13_step_refines (q : Q) (hq : FullInv q) (op : Op) :
@@ -46,30 +47,33 @@ theorem C13_step_refines (q : Q) (hq : FullInv q) (op : Op) :
       by_cases hq : (qos == 0) = true
       · simp [hq, h, hp, FullInv, outAbs]
       · simp only [hq, Bool.false_eq_true, ↓reduceIte]
-        have hpi : PingOk (q.insert tPUBLISH id enc tag) := by
-          unfold PingOk; rw [insert_ping]; exact hp
+        have hpi : PingsOk (q.insert tPUBLISH id enc tag) := by
+          unfold PingsOk; rw [insert_pings]; exact hp
         cases enc with
         | none => have := insert_none_refines h tPUBLISH id tag; simp only [tPUBLISH, tSUBSCRIBE, tUNSUBSCRIBE] at this hpi; simp [this, hpi, FullInv, Fifo.regOpt, outAbs, tPUBLISH, tSUBSCRIBE, tUNSUBSCRIBE, Fifo.PUBLISH, Fifo.SUBSCRIBE, Fifo.UNSUBSCRIBE]
         | some b => have := insert_refines h tPUBLISH id b tag; simp only [tPUBLISH, tSUBSCRIBE, tUNSUBSCRIBE] at this hpi; simp [this, hpi, FullInv, Fifo.regOpt, outAbs, tPUBLISH, tSUBSCRIBE, tUNSUBSCRIBE, Fifo.PUBLISH, Fifo.SUBSCRIBE, Fifo.UNSUBSCRIBE]
     | subscribe id enc =>
       simp only [step, Q.wait, Fifo.step]
-      have hpi : PingOk (q.insert tSUBSCRIBE id enc tag) := by
-        unfold PingOk; rw [insert_ping]; exact hp
+      have hpi : PingsOk (q.insert tSUBSCRIBE id enc tag) := by
+        unfold PingsOk; rw [insert_pings]; exact hp
       cases enc with
       | none => have := insert_none_refines h tSUBSCRIBE id tag; simp only [tPUBLISH, tSUBSCRIBE, tUNSUBSCRIBE] at this hpi; simp [this, hpi, FullInv, Fifo.regOpt, outAbs, tPUBLISH, tSUBSCRIBE, tUNSUBSCRIBE, Fifo.PUBLISH, Fifo.SUBSCRIBE, Fifo.UNSUBSCRIBE]
       | some b => have := insert_refines h tSUBSCRIBE id b tag; simp only [tPUBLISH, tSUBSCRIBE, tUNSUBSCRIBE] at this hpi; simp [this, hpi, FullInv, Fifo.regOpt, outAbs, tPUBLISH, tSUBSCRIBE, tUNSUBSCRIBE, Fifo.PUBLISH, Fifo.SUBSCRIBE, Fifo.UNSUBSCRIBE]
     | unsubscribe id enc =>
       simp only [step, Q.wait, Fifo.step]
-      have hpi : PingOk (q.insert tUNSUBSCRIBE id enc tag) := by
-        unfold PingOk; rw [insert_ping]; exact hp
+      have hpi : PingsOk (q.insert tUNSUBSCRIBE id enc tag) := by
+        unfold PingsOk; rw [insert_pings]; exact hp
       cases enc with
       | none => have := insert_none_refines h tUNSUBSCRIBE id tag; simp only [tPUBLISH, tSUBSCRIBE, tUNSUBSCRIBE] at this hpi; simp [this, hpi, FullInv, Fifo.regOpt, outAbs, tPUBLISH, tSUBSCRIBE, tUNSUBSCRIBE, Fifo.PUBLISH, Fifo.SUBSCRIBE, Fifo.UNSUBSCRIBE]
       | some b => have := insert_refines h tUNSUBSCRIBE id b tag; simp only [tPUBLISH, tSUBSCRIBE, tUNSUBSCRIBE] at this hpi; simp [this, hpi, FullInv, Fifo.regOpt, outAbs, tPUBLISH, tSUBSCRIBE, tUNSUBSCRIBE, Fifo.PUBLISH, Fifo.SUBSCRIBE, Fifo.UNSUBSCRIBE]
     | pingreq enc =>
       simp only [step, Q.wait, Fifo.step, outAbs, and_true]
       refine ⟨⟨⟨h.pow, h.mask, h.len, h.cnt, h.head, h.tail, h.sound, h.compl⟩, ?_⟩, ?_⟩
-      · intro h0; rfl
-      · simp [abs, window, slot, Q.get, absPing, toEntry, tPINGREQ, Fifo.PINGREQ]
+      · intro a ha
+        rcases List.mem_append.mp ha with ha | ha
+        · exact hp a ha
+        · simp only [List.mem_singleton] at ha; rw [ha]
+      · simp [abs, window, slot, Q.get, toEntry, tPINGREQ, Fifo.PINGREQ]
     | other => simp [step, Q.wait, Fifo.step, h, hp, FullInv, outAbs]
   | ack t id bytes =>
     simp only [step, Q.ack, Fifo.step, facts_idack]
@@ -85,36 +89,16 @@ theorem C13_step_refines (q : Q) (hq : FullInv q) (op : Op) :
         refine ⟨⟨this.1, hp⟩, this.2, rfl⟩
     · simp only [ht, Bool.false_eq_true, ↓reduceIte]
       by_cases hpt : (t == Fifo.PINGRESP) = true
-      · simp only [hpt, ↓reduceIte]
-        by_cases hm : (q.ping.mtype == tPINGREQ) = true
-        · simp only [hm, ↓reduceIte, outAbs, and_true]
-          have hm' : q.ping.mtype = tPINGREQ := by simpa using hm
-          refine ⟨⟨⟨h.pow, h.mask, h.len, h.cnt, h.head, h.tail, h.sound, h.compl⟩, ?_⟩, ?_⟩
-          · intro _; exact hm'
-          · simp [abs, window, slot, Q.get, absPing, toEntry, hm', tPINGRESP, Fifo.PINGRESP]
-        · have hm' : ¬ q.ping.mtype = tPINGREQ := by simpa using hm
-          simp [hm, h, hp, FullInv, outAbs, abs, absPing, hm']
+      · simp only [hpt, ↓reduceIte, outAbs, and_true]
+        refine ⟨⟨⟨h.pow, h.mask, h.len, h.cnt, h.head, h.tail, h.sound, h.compl⟩, ?_⟩, ?_⟩
+        · exact markPing_mtype bytes q.pings hp
+        · have := markPing_refines bytes q.pings
+          simp only [abs, window, slot, Q.get, this]
       · simp [hpt, h, hp, FullInv, outAbs]
   | acked =>
     obtain ⟨a, b, c, d⟩ := acked_refines h hp
-    simp only [step, Fifo.step, outAbs]
-    have e1 : tPINGRESP = 13 := rfl
-    rw [e1] at c d
-    refine ⟨⟨a, b⟩, ?_, ?_⟩
-    · rw [c]
-      by_cases hs : q.ping.state = 13
-      · have hm : q.ping.mtype = 12 := hp hs
-        simp [hs, abs, absPing, hm, toEntry, Fifo.collect, tPINGREQ, Fifo.PINGRESP]
-      · by_cases hm : q.ping.mtype = 12
-        · simp [hs, abs, absPing, hm, toEntry, Fifo.collect, tPINGREQ, Fifo.PINGRESP]
-        · simp [hs, abs, absPing, hm, Fifo.collect, tPINGREQ, Fifo.PINGRESP]
-    · rw [d]
-      by_cases hs : q.ping.state = 13
-      · have hm : q.ping.mtype = 12 := hp hs
-        simp [hs, abs, absPing, hm, toEntry, Fifo.collect, tPINGREQ, Fifo.PINGRESP]
-      · by_cases hm : q.ping.mtype = 12
-        · simp [hs, abs, absPing, hm, toEntry, Fifo.collect, tPINGREQ, Fifo.PINGRESP]
-        · simp [hs, abs, absPing, hm, Fifo.collect, tPINGREQ, Fifo.PINGRESP]
+    simp only [step, Fifo.step, outAbs, Fifo.collectPings, Fifo.collect]
+    exact ⟨⟨a, b⟩, c, by rw [d]⟩
 
 /-- **C13, refinement form.**  For every history of register / acknowledge /
 collect operations, of any length, over any identifiers, the code-shaped queue
@@ -181,10 +165,7 @@ theorem specRun_cons (s : Fifo.S) (op : Op) (ops : List Op) :
 
 theorem specAcked_q (s : Fifo.S) :
     (Fifo.step s .acked).1.q = s.q.dropWhile (fun e => terminal e.state) := by
-  simp only [Fifo.step, Fifo.collect]
-  cases s.ping with
-  | none => simp
-  | some e => by_cases h : (e.state == Fifo.PINGRESP) = true <;> simp [h]
+  simp only [Fifo.step, Fifo.collect, Fifo.collectPings]
 
 theorem mem_takeWhile {α} (p : α → Bool) (l : List α) (a : α) (h : a ∈ l.takeWhile p) : p a = true := by
   induction l with
@@ -273,12 +254,144 @@ theorem C13_release_eager (s : Fifo.S) :
   rw [he] at this
   simpa using this
 
+/-! ### the identifier-less ping requests are a FIFO as well -/
+
+/-- a ping request has its PINGRESP -/
+def answered (e : Fifo.Entry) : Bool := e.state == Fifo.PINGRESP
+
+/-- ping requests put in flight by one operation (every `Wait(PINGREQ)` is accepted) -/
+def stepPingAccepted : Op → List Fifo.Entry
+  | .wait (.pingreq enc) tag => [⟨Fifo.PINGREQ, 0, 0, enc, [], tag⟩]
+  | _ => []
+
+/-- ping requests handed back by one operation -/
+def stepPingReleased (s : Fifo.S) : Op → List Fifo.Entry
+  | .acked => s.pings.takeWhile answered
+  | _ => []
+
+def pingAccepted : List Op → List Fifo.Entry
+  | [] => []
+  | op :: ops => stepPingAccepted op ++ pingAccepted ops
+
+def pingReleased (s : Fifo.S) : List Op → List Fifo.Entry
+  | [] => []
+  | op :: ops => stepPingReleased s op ++ pingReleased (Fifo.step s op).1 ops
+
+theorem answerPing_key (bytes : List UInt8) (l : List Fifo.Entry) :
+    (Fifo.answerPing bytes l).map key = l.map key := by
+  induction l with
+  | nil => rfl
+  | cons e l ih =>
+    simp only [Fifo.answerPing]
+    split
+    · simp only [List.map_cons, ih]
+    · rfl
+
+theorem regOpt_pings (s : Fifo.S) (mtype id : Nat) (enc : Option (List UInt8)) (tag : Nat) :
+    (Fifo.regOpt s mtype id enc tag).pings = s.pings := by
+  cases enc with
+  | none => rfl
+  | some b => simp only [Fifo.regOpt, Fifo.register]; split <;> rfl
+
+theorem step_ping_conservation (s : Fifo.S) (op : Op) :
+    (stepPingReleased s op ++ (Fifo.step s op).1.pings).map key = (s.pings ++ stepPingAccepted op).map key := by
+  cases op with
+  | wait m tag =>
+    cases m with
+    | publish qos id enc =>
+      simp only [stepPingReleased, stepPingAccepted, Fifo.step, List.nil_append, List.append_nil]
+      split
+      · rfl
+      · rw [regOpt_pings]
+    | subscribe id enc =>
+      simp only [stepPingReleased, stepPingAccepted, Fifo.step, List.nil_append, List.append_nil, regOpt_pings]
+    | unsubscribe id enc =>
+      simp only [stepPingReleased, stepPingAccepted, Fifo.step, List.nil_append, List.append_nil, regOpt_pings]
+    | pingreq enc => simp only [stepPingReleased, stepPingAccepted, Fifo.step, List.nil_append]
+    | other => simp only [stepPingReleased, stepPingAccepted, Fifo.step, List.nil_append, List.append_nil]
+  | ack t id bytes =>
+    simp only [stepPingReleased, stepPingAccepted, Fifo.step, List.nil_append, List.append_nil]
+    split
+    · rfl
+    · split
+      · exact answerPing_key bytes s.pings
+      · rfl
+  | acked =>
+    simp only [stepPingReleased, stepPingAccepted, Fifo.step, Fifo.collectPings, Fifo.collect, List.append_nil]
+    exact congrArg (List.map key) (List.takeWhile_append_dropWhile (p := answered) (l := s.pings))
+
+/-- **C13, exactly-once FIFO hand-back of ping requests.**  Ping requests carry
+no identifier, so any number of them may be in flight.  Over any history the
+ping requests registered equal the ping requests handed back so far followed by
+those still in flight (compared on packet type, bytes and completion
+callback): each is handed back at most once, in the order registered, none is
+lost or overwritten by a later one, none is invented. -/
+theorem C13_pings_exactly_once_fifo (s : Fifo.S) (ops : List Op) :
+    (pingReleased s ops ++ (Fifo.run s ops).1.pings).map key = (s.pings ++ pingAccepted ops).map key := by
+  induction ops generalizing s with
+  | nil => simp [pingReleased, pingAccepted, Fifo.run]
+  | cons op ops ih =>
+    rw [specRun_cons]
+    simp only [pingReleased, pingAccepted]
+    have h1 := step_ping_conservation s op
+    have h2 := ih (Fifo.step s op).1
+    simp only [List.map_append] at *
+    rw [List.append_assoc, h2, ← List.append_assoc, h1, List.append_assoc]
+
+/-- Only ping requests that have their PINGRESP are handed back, and all of them
+that the order permits: after a collect the oldest ping request left has none. -/
+theorem C13_pings_released_answered (s : Fifo.S) (op : Op) :
+    (∀ e ∈ stepPingReleased s op, answered e = true) ∧
+    ∀ e, (Fifo.step s .acked).1.pings.head? = some e → answered e = false := by
+  constructor
+  · cases op <;> simp only [stepPingReleased, List.not_mem_nil, false_implies, implies_true]
+    intro e he
+    exact mem_takeWhile answered s.pings e he
+  · intro e he
+    simp only [Fifo.step, Fifo.collectPings, Fifo.collect] at he
+    have := List.head?_dropWhile_not answered s.pings
+    rw [show (List.dropWhile (fun e => e.state == Fifo.PINGRESP) s.pings) = List.dropWhile answered s.pings from rfl] at he
+    rw [he] at this
+    simpa using this
+
+/-- A PINGRESP is taken by the oldest ping request that has none yet, and by no
+other; the answered requests therefore always form a prefix of the FIFO.  With
+no unanswered ping request in flight the PINGRESP changes nothing. -/
+theorem C13_pingresp_effect (s : Fifo.S) (bytes : List UInt8) (pre post : List Fifo.Entry) (e : Fifo.Entry)
+    (hpre : ∀ x ∈ pre, answered x = true) :
+    (s.pings = pre ++ e :: post → answered e = false →
+      (Fifo.step s (.ack Fifo.PINGRESP 0 bytes)).1.pings =
+        pre ++ { e with state := Fifo.PINGRESP, ack := bytes } :: post) ∧
+    (s.pings = pre → (Fifo.step s (.ack Fifo.PINGRESP 0 bytes)).1 = s) := by
+  have hstep : (Fifo.step s (.ack Fifo.PINGRESP 0 bytes)).1 = { s with pings := Fifo.answerPing bytes s.pings } := by
+    simp [Fifo.step, Fifo.isIdAck, Fifo.PINGRESP, Fifo.PUBACK, Fifo.PUBREC, Fifo.PUBREL, Fifo.PUBCOMP,
+      Fifo.SUBACK, Fifo.UNSUBACK]
+  have hskip : ∀ (pre rest : List Fifo.Entry), (∀ x ∈ pre, answered x = true) →
+      Fifo.answerPing bytes (pre ++ rest) = pre ++ Fifo.answerPing bytes rest := by
+    intro pre rest h
+    induction pre with
+    | nil => rfl
+    | cons a pre ih =>
+      have ha : (a.state == Fifo.PINGRESP) = true := h a (by simp)
+      simp only [List.cons_append, Fifo.answerPing, ha, ↓reduceIte]
+      rw [ih (fun x hx => h x (by simp [hx]))]
+  constructor
+  · intro hs he
+    have he' : (e.state == Fifo.PINGRESP) = false := he
+    rw [hstep, hs, hskip pre _ hpre]
+    simp only [Fifo.answerPing, he', Bool.false_eq_true, ↓reduceIte]
+  · intro hs
+    rw [hstep]
+    have := hskip pre [] hpre
+    simp only [List.append_nil, Fifo.answerPing] at this
+    rw [hs, this, ← hs]
+
 /-- An acknowledgement changes exactly the in-flight request bearing its
 identifier: that request takes the acknowledgement's type and a byte-identical
 copy of it; every other request is untouched. -/
 theorem C13_ack_effect (s : Fifo.S) (t id : Nat) (bytes : List UInt8)
     (ht : Fifo.isIdAck t = true) :
-    (Fifo.step s (.ack t id bytes)).1.ping = s.ping ∧
+    (Fifo.step s (.ack t id bytes)).1.pings = s.pings ∧
     (Fifo.step s (.ack t id bytes)).1.q.length = s.q.length ∧
     ∀ (i : Nat) (e : Fifo.Entry), s.q[i]? = some e →
       (Fifo.step s (.ack t id bytes)).1.q[i]? =
@@ -330,5 +443,21 @@ example : (run init demoOps).1.size = 32 ∧ (run init demoOps).1.count = 18 ∧
   decide +kernel
 
 example : FullInv (run init demoOps).1 := (C13_refines init fullInv_init demoOps).1
+
+/-- three ping requests in flight, a QoS 1 publish between them; two PINGRESPs, a collect, a third
+PINGRESP and a fourth with nothing outstanding, a collect -/
+def demoPings : List Op :=
+  [.wait (.pingreq [0xc0, 0]) 1, .wait (.pingreq [0xc0, 0]) 2, .wait (.publish 1 5 (some [0x32])) 9,
+   .wait (.pingreq [0xc0, 0]) 3, .ack 13 0 [0xd0, 0], .ack 4 5 [0x40, 2, 0, 5], .ack 13 0 [0xd0, 0], .acked,
+   .ack 13 0 [0xd0, 0], .ack 13 0 [0xd0, 0], .acked, .acked]
+
+example : (run init demoPings).2.drop 7 =
+      [.released [⟨12, 13, 0, [0xc0, 0], [0xd0, 0], 1⟩, ⟨12, 13, 0, [0xc0, 0], [0xd0, 0], 2⟩,
+                  ⟨3, 4, 5, [0x32], [0x40, 2, 0, 5], 9⟩],
+       .ok true, .ok true,
+       .released [⟨12, 13, 0, [0xc0, 0], [0xd0, 0], 3⟩],
+       .released []] ∧
+    (run init demoPings).1.pings = [] := by
+  decide +kernel
 
 end Mqtt.Properties.C13
